@@ -24,11 +24,15 @@ StoreMix == (32768 :> Rec("PUB", 11, 1)) @@ (32769 :> Rec("PUB", 12, 2))
 \* both sequences straddle the 14-bit wrap of the identifiers
 StoreWrap == (32768 + 16382 :> Rec("PUB", 11, 1)) @@ (32768 + 16383 :> Rec("PUB", 12, 2)) @@ (32768 :> Rec("PUB", 13, 3)) @@ (32769 :> Rec("PUB", 14, 4))
              @@ (49152 + 16383 :> Rec("REL", 21, 8)) @@ (49152 :> Rec("REL", 22, 9)) @@ (49153 :> Rec("PUB", 23, 7))
+\* the step from the last PUBREL to the first PUBLISH is the wrap itself
+StoreWrapB == (49152 + 16383 :> Rec("REL", 21, 3)) @@ (49152 :> Rec("PUB", 22, 1)) @@ (49152 + 1 :> Rec("PUB", 23, 2))
+              @@ (32768 + 16383 :> Rec("PUB", 11, 4)) @@ (32768 :> Rec("PUB", 12, 5))
 \* only PUBREL records pending
 StoreRels == (49152 + 5 :> Rec("REL", 21, 3)) @@ (49152 + 6 :> Rec("REL", 22, 4))
 NoIn == <<>>
 In012 == <<[qos |-> 1, tag |-> 501], [qos |-> 2, tag |-> 502], [qos |-> 0, tag |-> 503]>>
 In22 == <<[qos |-> 2, tag |-> 501], [qos |-> 2, tag |-> 502]>>
+In2 == <<[qos |-> 2, tag |-> 501]>>
 ScriptNone == ("w1" :> <<>>)
 NoGen2 == [x \in {} |-> <<>>]
 Gen2None == ("v2" :> <<>>)
@@ -40,6 +44,7 @@ ScriptQ2x4 == ("w1" :> <<P2(1), P2(2), P2(3), P2(4)>>)
 ScriptQ222 == ("w1" :> <<P2(1), P2(2), P2(3)>>)
 ScriptOne == ("w1" :> <<P1(1)>>)
 ScriptQ2  == ("w1" :> <<P2(1)>>)
+ScriptP0 == ("w1" :> <<P0(1)>>)
 ScriptTwo == ("w1" :> <<P1(1), P2(2)>>) @@ ("w2" :> <<P1(3)>>)
 ScriptClose == ("w1" :> <<P1(1)>>) @@ ("c1" :> <<CloseOp>>)
 ScriptReq == ("w1" :> <<P0(1), PingOp>>) @@ ("w2" :> <<SubOp>>)
@@ -62,9 +67,15 @@ ScriptNew == ("w1" :> <<P2(101), P1(102)>>)
 Terminal == \A p \in Procs : MovesOf(st, p) = {}
 \* one behaviour per transition of the bounded model (or a seeded sample of them)
 \* (transitions after a damaged restart are rare among all transitions and are sampled twenty times as often)
+\* Transitions that bring the read routine to a write of its own while the write semaphore holds no connection,
+\* because a request of another goroutine failed meanwhile (the shape of F4), are few and are exported apart, with the
+\* place in the read routine (flush of the owed acknowledgement, duplicate, PUBREL, PUBCOMP), for an even choice.
+RareAt(s) == s.pc["rd"] = "wn.got" /\ s.loc["rd"].val \in {PENDING, DOWN}
+RareStep == RareAt(st') /\ ~RareAt(st)
 ExportStep ==
-  (hist' # hist /\ (SampleK = 1 \/ RandomElement(1..(IF st'.damaged > 0 /\ st'.stops > 0 /\ SampleK >= 20 THEN SampleK \div 20 ELSE SampleK)) = 1)) =>
-     PrintT(<<"CASE", ToJson([steps |-> hist'])>>)
+  /\ (hist' # hist /\ RareStep) => PrintT(<<"RARE", ToJson([steps |-> hist', kind |-> st'.loc["rd"].ctx])>>)
+  /\ (hist' # hist /\ (SampleK = 1 \/ RandomElement(1..(IF st'.damaged > 0 /\ st'.stops > 0 /\ SampleK >= 20 THEN SampleK \div 20 ELSE SampleK)) = 1)) =>
+       PrintT(<<"CASE", ToJson([steps |-> hist'])>>)
 \* behaviours that reach a state the design forbids (used with the DEV_ switches: the specification regenerates a
 \* finding, the behaviour is replayed on the real code, the monitor decides)
 Detectors(s) == (IF s.strayPong THEN {"C11_PongIsOwn"} ELSE {})
